@@ -1,13 +1,39 @@
 from xdsl.context import Context
-from xdsl.dialects import builtin, scf
+from xdsl.dialects import builtin, memref, scf
 from xdsl.dialects.memref import DeallocOp
-from xdsl.ir import Block, Operation
+from xdsl.ir import Block, Operation, OpResult, SSAValue
 from xdsl.passes import ModulePass
 from xdsl.rewriter import InsertPoint, Rewriter
 
 from snaxc.accelerators.acc_context import AccContext
 from snaxc.dialects import snax
 from snaxc.util.dispatching_rules import dispatch_to_compute, dispatch_to_dm
+
+
+# ops whose result is a view of (a part of) the buffer of their first operand
+VIEW_OPS = (
+    memref.SubviewOp,
+    memref.CastOp,
+    memref.ReinterpretCastOp,
+    memref.MemorySpaceCastOp,
+    memref.ExpandShapeOp,
+    memref.CollapseShapeOp,
+    snax.LayoutCast,
+)
+
+
+def aliasing_values(value: SSAValue) -> list[SSAValue]:
+    """All values that stand for (a part of) the same buffer as the value: the buffer
+    it is a view of and every view of that buffer"""
+    root = value
+    while isinstance(root, OpResult) and isinstance(root.op, VIEW_OPS):
+        root = root.op.operands[0]
+    values = [root]
+    for aliased in values:
+        for use in aliased.uses:
+            if isinstance(use.operation, VIEW_OPS) and use.index == 0:
+                values.extend(use.operation.results)
+    return values
 
 
 def is_nested_in(op: Operation, block: Block) -> bool:
@@ -56,7 +82,10 @@ class InsertSyncBarrier(ModulePass):
                 ops_to_sync: list[Operation] = [x for x in ops_to_sync if not is_nested_in(x, sync_block)]
 
             # check all operands of current op
-            for operand in [*op_in_module.operands, *op_in_module.results]:
+            # (and all values that stand for the same buffers, each once)
+            for operand in dict.fromkeys(
+                alias for value in [*op_in_module.operands, *op_in_module.results] for alias in aliasing_values(value)
+            ):
                 # check all ops that use the operand -> dependency with current op
                 for op_use in operand.uses:
                     # now check if op is dispatched to a specific core and the result
